@@ -93,6 +93,7 @@ class PickleTie:
     def __init__(self, res, drv):
         self.res, self.drv = res, drv
         self.pending = []
+        self.attr_pending = []
         self.census = {}
         self.tot = {"programs": 0, "ops": 0, "bytes": 0, "heap_cells": 0, "reachable_cells": 0, "instances": 0, "strings": 0,
                     "shared_refs": 0, "shared_strings": 0, "cyclic_components": 0, "cells_on_cycles": 0, "vm_cells_allocated": 0}
@@ -102,25 +103,34 @@ class PickleTie:
         self.setstate = set()
         self.key_kinds = {}
 
-    def walk_memory(self, system):
+    def walk_memory(self, system, view="pickler"):
         t0 = time.time()
         try:
-            return pickleio.walk(system)
+            return pickleio.walk(system, view)
         except pickleio.Unmodelled as e:
             self.res.count("pickle:unmodelled-memory:" + str(e)[:60])
             return None
         finally:
             self.seconds += time.time() - t0
 
-    def add(self, inp, data, mem, reloaded):
+    def add(self, inp, data, mem, reloaded, mem_attrs=None):
         if self.drv is None or mem is None:
             return
+        if mem_attrs is not None or "attrs" in reloaded:
+            # some pickled class defines its own __reduce__ / __reduce_ex__ / __getstate__: what the pickler is shown is then not
+            # the attribute graph.  The property speaks about the attribute graph: compare that (both sides walked by attributes)
+            self.res.count("pickle:custom-reduce-program")
+            ra = reloaded.get("attrs") or reloaded          # no such class met on a side: its two views coincide
+            ma = mem_attrs or mem
+            attrs = ((ma[0], ma[1]), (ra["heap"], ra["root"]))
+        else:
+            attrs = None
         try:
             ops = pickleio.ops_of(data, self.census)
         except pickleio.Unmodelled as e:
             self.res.corr_breaks.append({"name": "PickleOps", "input": inp, "model": "no constructor", "impl": str(e)})
             return
-        self.pending.append((inp, len(data), ops, mem, (reloaded["heap"], reloaded["root"], reloaded["info"])))
+        self.pending.append((inp, len(data), ops, mem, (reloaded["heap"], reloaded["root"], reloaded["info"]), attrs))
         if len(self.pending) >= self.FLUSH:
             self.flush()
 
@@ -136,15 +146,19 @@ class PickleTie:
 
     def _flush(self, pend):
         reqs = []
-        for inp, nbytes, ops, (hm, rm, im), (hr, rr, ir) in pend:
+        areqs = []
+        for inp, nbytes, ops, (hm, rm, im), (hr, rr, ir), attrs in pend:
+            if attrs is not None:
+                areqs += [{"op": "pickle-canon", "heap": attrs[0][0], "root": attrs[0][1]}, {"op": "pickle-canon", "heap": attrs[1][0], "root": attrs[1][1]}]
             reqs += [{"op": "pickle-run", "ops": ops, "setstate": ir["setstate"]},
                      {"op": "pickle-canon", "heap": hm, "root": rm},
                      {"op": "pickle-canon", "heap": hr, "root": rr},
                      {"op": "pickle-dump", "heap": hm, "root": rm},
                      {"op": "pickle-roundtrip", "heap": hm, "root": rm}]
         got = self.drv.call_many(reqs)
+        agot = self.drv.call_many(areqs)
         res = self.res
-        for k, (inp, nbytes, ops, (hm, rm, im), (hr, rr, ir)) in enumerate(pend):
+        for k, (inp, nbytes, ops, (hm, rm, im), (hr, rr, ir), attrs) in enumerate(pend):
             vm, cm, cr, dm, rt = got[5 * k: 5 * k + 5]
             res.disagreements_checked += 4
             cmd = "pepper-compiler %s; pickle.load(open('out.save','rb')) in a new process" % inp.get("entry")
@@ -154,7 +168,17 @@ class PickleTie:
             if "ok" not in cm or "ok" not in cr:
                 continue
             same_graph = cm["ok"] == cr["ok"]
-            if not same_graph:
+            if attrs is not None:
+                am, ar = agot[0], agot[1]
+                agot = agot[2:]
+                if "ok" not in am or "ok" not in ar:
+                    res.corr_breaks.append({"name": "PickleCanon", "input": inp, "model": json.dumps([am, ar])[:300], "impl": "attribute view"})
+                elif am["ok"] != ar["ok"]:
+                    res.violations.append({"what": "the object graph reloaded from out.save in a fresh process is not isomorphic to the in-memory system "
+                                                   "(both read by attributes: a pickled class customises its pickling; customised: %s): %s" % (
+                                                       sorted(set(im["custom_reduce"]) | set(ir["custom_reduce"])), first_diff(am["ok"], ar["ok"])),
+                                           "input": inp, "sig": "C16:pickle-graph", "cmd": cmd})
+            elif not same_graph:
                 res.violations.append({"what": "the object graph reloaded from out.save in a fresh process is not isomorphic to the in-memory system "
                                                "(objects, attribute values, sharing, complement links): " + first_diff(cm["ok"], cr["ok"]),
                                        "input": inp, "sig": "C16:pickle-graph", "cmd": cmd})
@@ -344,6 +368,7 @@ def run(st, tier, seed):
                             mem.seqs[name_].fix_seq(fseq)
                 s_mem = snapmod.snap(mem)
                 pk_mem = pk.walk_memory(mem)          # [pickle model] the graph the pickler sees, before finishing mutates it
+                mem_attrs = pk.walk_memory(mem, "attrs") if pk_mem is not None and pk_mem[2]["custom_reduce"] else None
                 with quiet():
                     pf.apply_design(mem, read_design("out.mfe"))
                 mem_lines = ["# Sequences"] + ["sequence %s = %s" % (k, v.seq) for k, v in mem.seqs.items()] + \
@@ -358,9 +383,14 @@ def run(st, tier, seed):
                                        "sig": "C16:reload", "cmd": "python -c 'from peppercompiler.compiler import load; load(\"out.save\")'"})
                 continue
             reloaded = json.loads(r.stdout)
-            s_re = reloaded["snapshot"]
             with open(os.path.join(d, "out.save"), "rb") as f_:
-                pk.add(inp, f_.read(), pk_mem, reloaded)          # [pickle model] three-way graph comparison, see PickleTie
+                pk.add(inp, f_.read(), pk_mem, reloaded, mem_attrs)          # [pickle model] three-way graph comparison, see PickleTie
+            if "snapshot" not in reloaded:
+                res.violations.append({"what": "the state reloaded from the .save file in a fresh process cannot be read", "input": inp,
+                                       "observed": reloaded.get("snapshot_error"), "sig": "C16:reload",
+                                       "cmd": "python -c 'from peppercompiler.compiler import load; load(\"out.save\")'"})
+                continue
+            s_re = reloaded["snapshot"]
             cmd = "pepper-compiler %s; reload out.save in a new process" % b.entry
             if s_re["problems"] or s_mem["problems"]:
                 res.violations.append({"what": "sharing / complement links broken: %s" % (s_re["problems"] + s_mem["problems"])[:3], "input": inp,
